@@ -137,6 +137,16 @@ func runC17(c *core.Ctx) {
 	})
 	long2Idx := len(worlds) - 1
 	longIdx := len(worlds) - 2
+	// logs of exactly 512 and 1024 records (round numbers at which a batching writer hands over), one entry a day
+	for _, nd := range []int{512, 1024} {
+		var sb strings.Builder
+		d0 := gen.Date{Y: 2019, M: 1, D: 1}
+		for k := 0; k < nd; k++ {
+			fmt.Fprintf(&sb, "%s:\n  a/b: %d\n", d0.AddDays(k).Format("2006/01/02"), 1+k%7)
+		}
+		worlds = append(worlds, map[string]string{"food.yaml": "a/b:\n  x: 1\n  y: 2\n", "log.yaml": sb.String(), "bad.yaml": "2021/01/24:\n  broken\n", "stray.yaml": c17Stray})
+	}
+	round2Idx, round1Idx := len(worlds)-1, len(worlds)-2
 	worlds = append(worlds, c17Files(c, 1000, true))
 	bigIdx := len(worlds) - 1
 	pre := []string{"--no-color", "-d", "food.yaml", "-l", "log.yaml", "--today", "2021/02/01"}
@@ -154,7 +164,7 @@ func runC17(c *core.Ctx) {
 			}
 			L := len(res.Out)
 			fullOut[[2]int{wi, ci}] = res.Out
-			if wi != bigIdx && wi != longIdx && wi != long2Idx {
+			if wi != bigIdx && wi != longIdx && wi != long2Idx && wi != round1Idx && wi != round2Idx {
 				if L <= 3000 {
 					exhaustiveCmds++
 					for k := 0; k <= L; k++ {
@@ -250,14 +260,18 @@ func runC17(c *core.Ctx) {
 			return
 		}
 		if devfull != nil {
-			res := run.Exec(c.HR, args, run.ExecOpts{Dir: dir, Stdout: devfull})
-			c.Eval(1)
-			c.Count("l1_dev_full_runs", 1)
-			c.Nontrivial("devfull", joinArgs(cmd))
-			if res.Exit == 0 {
-				c.Violation(name+"|write-error-dropped", fmt.Sprintf("%s > /dev/full exits 0 (report of %d bytes lost)", joinArgs(cmd), len(ref.Out)), caseDoc{Files: worlds[0], Args: args, Note: "stdout = /dev/full", Observed: resDoc(res)})
-			} else if res.Crashed() && res.Signal == "" {
-				c.Violation(name+"|crash-on-write-fault", clip(res.Serr, 300), caseDoc{Files: worlds[0], Args: args, Note: "stdout = /dev/full", Observed: resDoc(res)})
+			// under the conventions by which the environment asks for plain or coloured output as well (whatever the
+			// program makes of them, a lost report is a failure)
+			for _, env := range []map[string]string{nil, {"NO_COLOR": "1"}, {"TERM": "dumb", "CLICOLOR": "0"}, {"CLICOLOR_FORCE": "1", "FORCE_COLOR": "1", "TERM": "xterm-256color"}} {
+				res := run.Exec(c.HR, args, run.ExecOpts{Dir: dir, Stdout: devfull, Env: env})
+				c.Eval(1)
+				c.Count("l1_dev_full_runs", 1)
+				c.Nontrivial("devfull", joinArgs(cmd), fmt.Sprint(env))
+				if res.Exit == 0 {
+					c.Violation(name+"|write-error-dropped", fmt.Sprintf("%s > /dev/full exits 0 (report of %d bytes lost; environment %v)", joinArgs(cmd), len(ref.Out), env), caseDoc{Files: worlds[0], Args: args, Env: env, Note: "stdout = /dev/full", Observed: resDoc(res)})
+				} else if res.Crashed() && res.Signal == "" {
+					c.Violation(name+"|crash-on-write-fault", clip(res.Serr, 300), caseDoc{Files: worlds[0], Args: args, Env: env, Note: "stdout = /dev/full", Observed: resDoc(res)})
+				}
 			}
 		}
 		// closed pipe / pipe closed after 4 KiB / file size limit, through the shell
